@@ -81,8 +81,13 @@ fn rand_item(rng: &mut Rng, len: usize) -> Item {
 /// run; later indices draw shapes at random.
 pub fn gen(seed: u64, tier: Tier, k: u64) -> Value {
     let mut rng = Rng::keyed(seed, "C01", k);
-    let shape = if k < 14 { k } else { rng.below(14) };
+    // cases 14..19 of every tier: the extreme levels of each codec (zstd 22/20/-22, lz4 15, lzma 9) on ordinary shapes
+    let extreme = if (14..20).contains(&k) { Some([Comp::Zstd(22), Comp::Zstd(20), Comp::Zstd(-22), Comp::Lz4(15), Comp::Lzma(9), Comp::Zstd(21)][(k - 14) as usize]) } else { None };
+    let shape = if k < 14 { k } else if extreme.is_some() { [8u64, 5, 8, 5, 8, 2][(k - 14) as usize] } else { rng.below(14) };
     let mut comp = Comp::pick(&mut rng, tier);
+    if let Some(c) = extreme {
+        comp = c;
+    }
     let mut cached = rng.chance(1, 4);
     let mut items: Vec<Item> = vec![];
     let mut pkg = match rng.below(10) {
